@@ -102,6 +102,12 @@ def property_checks(cfg):
             if numpy.all(numpy.isfinite(M1)) and numpy.all(numpy.isfinite(blk)):
                 worst_own = max(worst_own, float(numpy.max(numpy.abs(blk - M1)) / max(float(numpy.max(numpy.abs(M1))), 1e-300)))
         A(("a sensor's own block does not depend on the other sensors or their order", worst_own, 3e-6))
+    # the same matrix whatever the number of worker processes (in-process pool honouring only the map contract)
+    if finite:
+        for t_ in (2, 3):
+            with scc.Controlled(lambda n: list(range(n))[::-1]):
+                Mt = make(cfg, threads=t_)
+            A(("the matrix does not depend on the number of threads (%d)" % t_, 0.0 if numpy.array_equal(Mt, M) else float(numpy.max(numpy.abs(Mt - M)) / sc_ + 1e-30), 0.0))
     s = cfg.get("s", 1.7)
     c2 = dict(cfg); c2["layers"] = [dict(l, r0=l["r0"] * s) for l in cfg["layers"]]
     M2 = make(c2)
